@@ -602,7 +602,8 @@ def check_descriptors(rep, drv, world, abi, tier):
     types = ptype_universe(world, 3)
     n_ex = len(types)
     # bool-run arrangements: tuples over {bool, static, dynamic} members, lengths up to 6 (thorough: all of length <= 6)
-    atoms = {"b": ["bool"], "s": ["u16"], "d": ["string"], "t": ["tup", ["bool"], ["bool"]], "a": ["sa", 9, ["bool"]]}
+    atoms = {"b": ["bool"], "s": ["u16"], "d": ["string"], "t": ["tup", ["bool"], ["bool"]], "a": ["sa", 9, ["bool"]],
+             "z": ["tup"], "Z": ["sa", 0, ["u8"]], "y": ["sa", 0, ["bool"]]}
     pats = []
     for ln in range(1, 5 if not thorough else 7):
         def rec(j, cur):
@@ -612,7 +613,9 @@ def check_descriptors(rep, drv, world, abi, tier):
             for c in ("b", "s", "d"):
                 rec(j + 1, cur + c)
         rec(0, "")
-    for s in ["b" * 8 + "d", "b" * 9 + "d", "d" + "b" * 8, "d" + "b" * 9 + "s", "b" * 16 + "s" + "b" * 17, "tbat", "abd", "bbtbbd", "dabbt"]:
+    for s in ["b" * 8 + "d", "b" * 9 + "d", "d" + "b" * 8, "d" + "b" * 9 + "s", "b" * 16 + "s" + "b" * 17, "tbat", "abd", "bbtbbd", "dabbt",
+              # members of width ZERO between / around bools: they end a bool run although they add no byte
+              "bzb", "bZb", "byb", "bzbd", "dbzb", "bbzbbbbbbb", "zbb", "bbz", "bzzb", "b" * 7 + "z" + "b", "b" * 8 + "z" + "b", "bzbzb", "szs", "bzs"]:
         pats.append(s)
     for s in pats:
         types.append(["tup"] + [atoms[c] for c in s])
@@ -948,8 +951,9 @@ def run(tier: str) -> int:
     for p in small:
         cases.append((p, "exhaustive"))
     # (ii) bool-run / dynamic-member arrangements
-    atoms = {"b": ["bool"], "s": ["u16"], "d": ["string"], "D": ["da", ["bool"]], "S": ["sa", 9, ["bool"]], "8": ["sa", 8, ["bool"]]}
-    arr = ["d", "bd", "db", "bdb", "b" * 8 + "d", "b" * 9 + "d", "d" + "b" * 8, "d" + "b" * 9, "d" + "b" * 8 + "d" + "b" * 9 + "s",
+    atoms = {"b": ["bool"], "s": ["u16"], "d": ["string"], "D": ["da", ["bool"]], "S": ["sa", 9, ["bool"]], "8": ["sa", 8, ["bool"]],
+             "z": ["tup"], "Z": ["sa", 0, ["u8"]]}
+    arr = ["bzbd", "dbzb", "bZbd", "bzbzbd", "bbzbbd", "zbd", "bzd", "d", "bd", "db", "bdb", "b" * 8 + "d", "b" * 9 + "d", "d" + "b" * 8, "d" + "b" * 9, "d" + "b" * 8 + "d" + "b" * 9 + "s",
            "bsbdbbD", "DbbbbbbbbS", "dd", "ddd", "sds", "bbsbbdbb8D", "b" * 16 + "d" + "b" * 17, "8b8", "SDd"]
     if thorough:
         for ln in range(1, 6):
